@@ -10,6 +10,7 @@ from __future__ import annotations
 import ast
 
 from ..core import AnalysisError, FuncNode, assigned_targets, call_name, calls_in, kwarg, last_attr, names_in, src
+from ..cfg import CFG, facts_at
 from ..tables import if_chain
 
 EXPLANATION = (
@@ -178,7 +179,15 @@ def run(ctx):
     if pc is None:
         raise AnalysisError("catch.promise_catch not found", "catch.promise_catch")
     dcalls = [src(c) for c in calls_in(pc) if call_name(c) == "derive_expression"]
-    ok = "derive_expression(expr, error)" in dcalls and "derive_expression(recover_expr, sexpr)" in dcalls
+    # the error derives from the expression that was evaluated: `expr`, or a local of catch() whose every definition is `expr` or the expression read from the cache
+    catch_fn = sm.func("catch")
+    def _is_evaluated_expr(name: str) -> bool:
+        if name == "expr":
+            return True
+        defs = [a.value for a in ast.walk(catch_fn) if isinstance(a, (ast.Assign, ast.AnnAssign)) and a.value is not None and src(a.targets[0] if isinstance(a, ast.Assign) else a.target) == name]
+        return bool(defs) and all(src(d) in ("expr", "cached_expr") for d in defs)
+    err_src = [c for c in calls_in(pc) if call_name(c) == "derive_expression" and len(c.args) == 2 and src(c.args[1]) == "error"]
+    ok = bool(err_src) and all(isinstance(c.args[0], ast.Name) and _is_evaluated_expr(c.args[0].id) for c in err_src) and "derive_expression(recover_expr, sexpr)" in dcalls
     r2.check(ok, f"{sm.rel}:catch.promise_catch:dataflow", f"catch does not rewire expr -> error -> recover(error) -> catch expression (found {dcalls})", sm.rel, pc.lineno)
 
     r4 = ctx.rule("C21.4", "deserialised expressions get the same upstream links as constructed ones", floor=3)
@@ -342,6 +351,65 @@ def _c21_5(ctx, repo):
             "expression (derive_expression(<new expr>, sexpr) / sexpr._upstreams): an argument computed through this scheduler task is recorded without a link to the call that produced it",
             mod.rel,
             fn.lineno,
+        )
+
+    # an expression a scheduler task takes out of the cache is a deserialized copy: it is not one of the objects reachable from sexpr, so evaluating it
+    # needs its own derive_expression(<cached expr>, sexpr) before the evaluate, or whatever consumes the scheduler task's result has no upstream
+    r8 = ctx.rule("C21.8", "an expression a scheduler task reads from the cache is linked to its scheduler expression before it is evaluated", floor=1)
+    ncached = 0
+    for name, (mod, q, fn) in sorted(sched_tasks.items()):
+        params = {a.arg for a in fn.args.args}
+        from_cache = set()
+        for n in ast.walk(fn):
+            if isinstance(n, ast.Assign) and isinstance(n.value, ast.Call) and last_attr(n.value) in ("check_cache", "get_cache", "_get_cache", "get_eval_cache"):
+                tg = n.targets[0]
+                first = tg.elts[0] if isinstance(tg, ast.Tuple) and tg.elts else tg
+                if isinstance(first, ast.Name):
+                    from_cache.add(first.id)
+        if not from_cache:
+            continue
+        cfg8 = CFG(fn)
+        for c in calls_in(fn, shallow=True):
+            if last_attr(c) == "evaluate" and c.args and isinstance(c.args[0], ast.Name) and c.args[0].id in from_cache:
+                ncached += 1
+                x = c.args[0].id
+                node = cfg8.node_of(c)
+                links = [cfg8.node_of(d) for d in calls_in(fn, shallow=True) if call_name(d) == "derive_expression" and len(d.args) == 2 and src(d.args[0]) == x and src(d.args[1]) in params]
+                r8.check(
+                    any(cfg8.dominates(l, node) for l in links),
+                    f"{mod.rel}:{q}:cached-expression-unlinked:{x}",
+                    f"{q} evaluates `{x}`, an expression deserialized from the cache, without derive_expression({x}, <scheduler expression>): on a cache hit the value handed on by {name}() has no upstream "
+                    "(the upstreams of the scheduler expression still point at the original argument expressions, which are never evaluated on this path), so the consumer's argument is recorded unlinked",
+                    mod.rel,
+                    c.lineno,
+                )
+    if ncached == 0:
+        raise AnalysisError("no scheduler task evaluates an expression read from the cache (catch's cache-hit path was expected)", "catch")
+
+    # upstream links are a property of *this* call's argument expressions, which do not enter the call hash; recording them only when the CallNode row is new
+    # drops the links of every later equal call that got its arguments from other upstream calls
+    r9 = ctx.rule("C21.9", "upstream links of a call are recorded even when an equal CallNode already exists", floor=1)
+    dbm9 = repo.mod(DB)
+    rcn = dbm9.func("RedunBackendDb.record_call_node")
+    cfg9 = CFG(rcn)
+    hashed = set()
+    for c in calls_in(rcn):
+        if call_name(c) == "hash_call_node":
+            hashed = {src(a) for a in c.args}
+    ra_calls = [c for c in calls_in(rcn) if last_attr(c) == "_record_args"]
+    if not ra_calls:
+        raise AnalysisError("record_call_node no longer calls _record_args", "RedunBackendDb.record_call_node")
+    for c in ra_calls:
+        unhashed = [src(a) for a in c.args if src(a) not in hashed and src(a) != "call_hash" and "expr" in src(a)]
+        guard = [f for f, t in facts_at(cfg9, cfg9.node_of(c)) if "query(CallNode)" in f and not t]
+        other = any(last_attr(x) in ("record_call_node_upstreams", "_record_upstreams") for x in calls_in(rcn))
+        r9.check(
+            not (unhashed and guard) or other,
+            f"{dbm9.rel}:RedunBackendDb.record_call_node:upstreams-only-for-new-node",
+            f"`{src(c)}` records the upstream links found in {unhashed} only when `{guard[0][:70] if guard else ''}` finds no row; {unhashed} is not part of the call hash, so for "
+            "main() = [task2(a()), task2(b())] with a() == b() the single task2 call node is linked to `a` only (the second call is de-duplicated or cached) and the dataflow b -> task2 is never recorded",
+            dbm9.rel,
+            c.lineno,
         )
 
     # the upstream search of one argument must not depend on the other arguments of the call: no mutable state created outside the
